@@ -361,6 +361,28 @@ def objects_roundtrip(chk, rng):
                 chk.diverge({"clause": "cross-registry-operation", "form": "registry-less-" + name, "observed": res}, {"form": name})
     finally:
         pint.set_application_registry(saved0)
+    # objects of the registry-less classes (pint.Quantity, pint.Unit, pint.Measurement): every copy stays a working member of the same registry
+    for label, o in (("Quantity", pint.Quantity(2.5, "kilometer / hour")), ("Unit", pint.Unit("microfarad")), ("Measurement", pint.Measurement(2.5, 0.1, "meter")),
+                     ("Quantity(Quantity)", pint.Quantity(pint.Quantity(2.5, "meter")))):
+        for how in ("copy", "deepcopy", "pickle", "constructor"):
+            chk.case(("registry-less-copy", label, how))
+            try:
+                n = copy.copy(o) if how == "copy" else copy.deepcopy(o) if how == "deepcopy" else pickle.loads(pickle.dumps(o)) if how == "pickle" else \
+                    (type(o)(o) if label.startswith("Quantity") else copy.copy(o))
+                ok = getattr(n, "_REGISTRY", None) is getattr(o, "_REGISTRY", None) is not None
+                if label == "Measurement":
+                    ok = ok and (n.value == o.value) and (n.error == o.error)
+                else:
+                    ok = ok and bool(n == o) and (label == "Unit" or (n + o).magnitude == 2 * o.magnitude)
+            except Exception as ex:
+                chk.diverge({"clause": "registry-less-copy-raises", "object": label, "how": how, "exc": type(ex).__name__}, {"object": repr(o), "error": repr(ex)[:200]})
+                continue
+            if not ok:
+                try:
+                    shown = repr(n)
+                except Exception as ex:
+                    shown = "<repr raises %s>" % type(ex).__name__
+                chk.diverge({"clause": "registry-less-copy", "object": label, "how": how}, {"object": repr(o), "copy": shown})
     # unpickling attaches to the application registry and registers prefixed units there first
     src = pint.UnitRegistry()
     fresh_app = pint.UnitRegistry()
